@@ -162,6 +162,17 @@ def _record_filter(chk, b, sp) -> None:
 
 def check_item_preference(chk) -> None:
     repo = chk.repo
+    from checks import c15e
+
+    acc = False
+    try:
+        acc = c15e.check_accessors_eval(chk)  # both residue models on interpreted instances; the pinned forms below are the fallback
+    except AnalysisError:
+        raise
+    except Exception as ex:
+        chk.ok("accessors-eval", "-", f"evaluation of the residue accessors failed internally ({type(ex).__name__}: {str(ex)[:60]}): the pinned-form rules decide")
+    if acc:
+        chk = _Decided(chk, drop={"prefer-auth", "pdb-field", "icode-field", "atom-by-name", "coordinates-items"})
     # residue-level model: Residue.chain/number prefer auth
     for prop, fld in (("chain", "chain"), ("number", "number"), ("name", "name")):
         fi = repo.func("common", f"Residue.{prop}")
